@@ -53,6 +53,10 @@ func (exec *execCtx) processV2Last(lastID oid.ID) {
 	if r := exec.ctxRange(); r != nil && r.GetLength() == 0 {
 		r.SetLength(exec.collectedHeader.PayloadSize())
 	}
+	if exec.hasPayloadRange() {
+		// the chain is walked back from the end of the parent payload
+		exec.curOff = exec.collectedHeader.PayloadSize()
+	}
 
 	if ok := exec.writeCollectedHeader(); ok {
 		exec.overtakePayloadInReverse(lastID)
